@@ -21,6 +21,7 @@ import re
 
 HERE = os.path.dirname(os.path.abspath(__file__))
 KNOWN_FILE = os.path.join(HERE, "known_functions.json")
+KNOWN_REFS_FILE = os.path.join(HERE, "known_ref_locals.json")
 TRANSPARENT = {"ImplicitCastExpr", "ParenExpr", "ExprWithCleanups", "MaterializeTemporaryExpr", "CXXBindTemporaryExpr", "ConstantExpr"}
 MAX_NODES = 600
 
@@ -414,3 +415,52 @@ def inline_program(raw, known=None, log=None):
             break
     gone = set(s for s in helpers if done[s] and not left[s])
     return gone
+
+
+def load_known_refs():
+    try:
+        return json.load(open(KNOWN_REFS_FILE))
+    except Exception:
+        return None
+
+
+def ref_locals(d):
+    """names of the reference-typed locals of a function"""
+    out = []
+    for n in d["nodes"]:
+        for dd in n.get("decls", []) or []:
+            if n["k"] == "DeclStmt" and dd.get("t", "").rstrip().endswith("&") and not dd.get("t", "").rstrip().endswith("&&"):
+                out.append(dd["n"])
+    return out
+
+
+def dealias_new_references(raw, known_refs=None):
+    """a reference local the rules have never seen (`Buffer& backlog = client._sendBuffer;` introduced by a clean-up) that is bound to a
+    pure path is replaced, at each use, by that path: the rules keep reading the designation they know"""
+    known_refs = known_refs if known_refs is not None else load_known_refs()
+    if known_refs is None:
+        return 0
+    cnt = 0
+    for sig, F in raw.items():
+        if not F.get("cfg"):
+            continue
+        have = set(known_refs.get(strip_targs(F["name"]), []))
+        nodes = F["nodes"]
+        for n in list(nodes):
+            if n["k"] != "DeclStmt" or n.get("inl"):
+                continue
+            for dd in n.get("decls", []) or []:
+                t = dd.get("t", "").rstrip()
+                if not t.endswith("&") or t.endswith("&&") or dd["n"] in have or not isinstance(dd.get("init"), int):
+                    continue
+                init = dd["init"]
+                if not pure_path(nodes, init):
+                    continue
+                for m in list(nodes):
+                    if m["k"] == "DeclRefExpr" and m.get("ref", {}).get("id") == dd["id"]:
+                        cl = clone_subtree(nodes, init)
+                        i0 = m["i"]
+                        m.clear()
+                        m.update({"i": i0, "k": "ParenExpr", "c": [cl], "dealiased": dd["n"]})
+                        cnt += 1
+    return cnt
